@@ -84,14 +84,16 @@ def _exact(a, b, op):
     return fractions.Fraction(fa * fb if op == "*" else fa / fb) == (a * b if op == "*" else a / b)
 
 
-def round_half_exact(edge, pixel_size, resolution, margin=1e-9):
+def round_half_exact(edge, pixel_size, resolution, margin=1e-12):
     """round(edge*pixel_size/resolution) in exact rational arithmetic on the given binary floats.
     Returns (pixels, None), or (None, reason) when the value cannot be decided independently of the rounding rule /
     the floating-point evaluation order:
       * an EXACT tie k + 1/2 with k ODD is decided: round-half-even and round-half-up both give k + 1 (required
         additionally: edge*pix, pix/res and edge/res are exact float operations, so every evaluation order of
         box*pixel_size/resolution yields exactly k + 0.5);
-      * an exact tie with k EVEN (half-even: k, half-up: k + 1) and inexact near-ties stay undecided."""
+      * an exact tie with k EVEN (half-even: k, half-up: k + 1) stays undecided, and so does an inexact near-tie closer than
+        1e-12 (relative) to k + 1/2: the two float roundings of box*pixel_size/resolution are worth ~2.3e-16 relative, so anything
+        farther from the tie (the planted 1e-9 .. 5e-7) is decided whatever the evaluation order."""
     try:
         e, p, r = (fractions.Fraction(float(v)) for v in (edge, pixel_size, resolution))
     except (TypeError, ValueError, OverflowError):
